@@ -59,7 +59,7 @@ Inductive label :=
 | LCancel                  (* environment: this caller's ctx is cancelled *)
 | EAcquire | ERelease | EInAcquire | EInRelease | EBodyOk | EBodyErr | ECloseConn
 | EReadPark | EReadWake    (* a reader whose (implicit) Handshake has returned nil enters / leaves Read *)
-| ERenegStart.             (* that reader receives a HelloRequest: UConn.handleRenegotiation, u_conn.go:986-1031 *)
+| ERenegStart.             (* that reader receives a HelloRequest: UConn.handleRenegotiation, u_conn.go:986-1040 *)
 
 Definition upd (s : state) (mu il : owner) (co he cl : bool) (dc : bool) (i : intr) (q : pc) (r : option result) : state :=
   mkState mu il co he cl (cancellable s) (cancelled s) dc i q r (reneg s).
@@ -148,7 +148,7 @@ Definition step (s : state) (l : label) : option state :=
                  | Parked => Some (upd s (mutex s) Free (complete s) (hs_err s) (conn_closed s) (done_closed s) (it s) (p s) (ret s))
                  | _ => None end
   (* handleRenegotiation runs inside Read, i.e. with the input lock held: it takes handshakeMutex and only then clears
-     isHandshakeComplete (u_conn.go:1020-1023); the reader now is a handshake holder of both locks and runs the body *)
+     isHandshakeComplete (u_conn.go:1020-1023; a Go-built hello is then rebuilt from scratch, inside the body step); the reader now is a handshake holder of both locks and runs the body *)
   | ERenegStart => match inl s, mutex s with
                    | Parked, Free => if complete s && negb (hs_err s)
                                      then Some (mkState Others Others false (hs_err s) (conn_closed s) (cancellable s) (cancelled s)
